@@ -447,6 +447,33 @@ static wres w_patch(int v)
 		json_object_put(base);
 	return r;
 }
+/* json_c_set_serialization_double_format (v = 0 process-wide, 1 per thread): install a format, replace it, serialize a
+ * double.  Whichever request fails, the call reports it, and the library stays usable: the double is then printed under a
+ * format that was installed (or the default), never through a released one */
+static wres w_double_format(int v)
+{
+	wres r = {2, NULL, 0};
+	int where = v == 0 ? JSON_C_OPTION_GLOBAL : JSON_C_OPTION_THREAD;
+	json_object *d = json_object_new_double(1.5);
+	if (!d)
+	{
+		r.status = 1;
+		return r;
+	}
+	int rc1 = json_c_set_serialization_double_format("%.3f", where);
+	int rc2 = rc1 == 0 ? json_c_set_serialization_double_format("%.5f", where) : -1;
+	const char *s = json_object_to_json_string(d);
+	if (rc1 == 0 && rc2 == 0 && s)
+	{
+		r.status = 0;
+		r.result = strdup(s);
+	}
+	else if (!s || !strcmp(s, "1.5") || !strcmp(s, "1.500") || !strcmp(s, "1.50000"))
+		r.status = 1;
+	json_object_put(d);
+	json_c_set_serialization_double_format(NULL, where);
+	return r;
+}
 static struct
 {
 	const char *name;
@@ -455,7 +482,8 @@ static struct
 	int uses_pre; /* operates on the caller-owned objects: worth repeating after a history */
 } W[] = {{"parse_ex", w_parse, 12, 0},   {"tokener_parse", w_parse_simple, 1, 0}, {"construct", w_construct, 10, 0}, {"object_add", w_obj_add, 3, 1},
          {"array_grow", w_arr, 9, 1},    {"set_string", w_set_string, 6, 1},      {"deep_copy", w_deep_copy, 1, 1},  {"serialize", w_serialize, 13, 1},
-         {"pointer_set", w_pointer_set, 3, 1}, {"pointer_get", w_pointer_get, 2, 1}, {"patch", w_patch, 7, 1}};
+         {"pointer_set", w_pointer_set, 3, 1}, {"pointer_get", w_pointer_get, 2, 1}, {"patch", w_patch, 7, 1},
+         {"double_format", w_double_format, 2, 0}};
 #define NW (int)(sizeof W / sizeof *W)
 
 static int unchanged(int mask)
